@@ -81,7 +81,9 @@ def execute_here(plan, keep_events=False):
                 4000 + 60 * N * C * (T + 2) * 4))
     cl = cluster.Cluster(sim, mode, plan.get('cpu_count', C),
                          plan.get('listing_perm'), sched)
-    ledger = seams.Ledger(sim)
+    _dt = stream(plan['seed'], 'trial_dt')
+    ledger = seams.Ledger(sim, trial_dt=lambda p: _dt.choice(
+        [0.001, 0.01, 0.25]))
     node_results = {}
     sb.install()
     seams.install_entropy(plan['seed'])
@@ -168,6 +170,7 @@ def execute_here(plan, keep_events=False):
         'switches': sched.switches if sched else 0,
         'n_trials': sum(len(v) for d in ledger.by_proc.values()
                         for v in d.values()),
+        'sim_seconds': sim.clock.now() - 1_700_000_000.0,
     }
 
 
@@ -393,13 +396,14 @@ def new_summary():
     return {'runs': 0, 'violations': [], 'states': set(), 'fault_counts': {},
             'probes': {}, 'trials': 0, 'full_runs': 0, 'sched_steps': 0,
             'switches': 0, 'sample_full': None, 'sample_args': None,
-            'seen': set()}
+            'seen': set(), 'sim_seconds': 0.0}
 
 
 def absorb(summ, plan, o):
     summ['runs'] += 1
     summ['states'].update(o['states'])
     summ['trials'] += o['n_trials']
+    summ['sim_seconds'] += o.get('sim_seconds', 0.0)
     for k, v in o['fault_counts'].items():
         summ['fault_counts'][k] = summ['fault_counts'].get(k, 0) + v
     for k, v in o['probes'].items():
@@ -470,7 +474,8 @@ def aggregate(agg, r):
     agg['runs'] += r['runs']
     agg['violations'] += r['violations']
     agg['states'].update(r['states'])
-    for k in ('trials', 'full_runs', 'sched_steps', 'switches'):
+    for k in ('trials', 'full_runs', 'sched_steps', 'switches',
+              'sim_seconds'):
         agg[k] += r[k]
     for k, v in r['fault_counts'].items():
         agg['fault_counts'][k] = agg['fault_counts'].get(k, 0) + v
@@ -577,6 +582,7 @@ def evidence(tier, agg, wall):
         'simulated_runs': agg['runs'],
         'full_mode_cluster_runs': agg['full_runs'],
         'simulated_runs_per_hour': int(agg['runs'] / max(wall, 1e-9) * 3600),
+        'simulated_seconds_covered': round(agg['sim_seconds'], 1),
         'scheduler_steps': agg['sched_steps'],
         'task_switches': agg['switches'],
         'trials_executed_by_workers': agg['trials'],
